@@ -124,12 +124,37 @@ class Gen:
     def key(self):
         return hx(self.rng.choice(KEYS))
 
+    def many(self, o, must=None):
+        """multi-key attribute handler: 2-4 distinct keys (optionally including `must`), rarely 0/1 or a repeated key"""
+        rng = self.rng
+        ks = rng.sample(KEYS, rng.randint(2, 4))
+        if must is not None and must not in ks:
+            ks[rng.randrange(len(ks))] = must
+        if rng.random() < 0.1:
+            ks = ks[:rng.randint(0, 1)]
+        elif rng.random() < 0.1:
+            ks.append(rng.choice(ks))
+        self.feat.add('multi_key_attr_handler')
+        return 'am:%d:%s' % (o, ','.join('%s.%s' % (hx(k), hx(rng.choice(VALS + ['new']))) for k in ks))
+
+    def override_motif(self, out):
+        """a key set by an earlier handler, then a later handler returning MORE entries than the message
+        carries with that key among them, then a sink (the later handler must win)"""
+        rng = self.rng
+        k = rng.choice(KEYS)
+        out.append(('L', rng.choice(['as:%d:%s:%s', 'gs:%d:%s:%s:1']) % (self.fresh(), hx(k), hx('old'))))
+        if rng.random() < 0.3:
+            out.append(self.leaf(False))
+        out.append(('L', self.many(self.fresh(), must=k)))
+        out.append(('L', 's:%d' % self.fresh()))
+        self.feat.add('bigger_overlapping_attr_block')
+
     def leaf(self, in_scoped):
         rng = self.rng
         if self.made and rng.random() < 0.04:
             self.feat.add('same_object_twice')
             return ('L', rng.choice(self.made))
-        k = rng.choice(['as', 'as', 'ac', 'ft', 'ff', 'fc', 'fh', 'fh', 'fy', 'mt', 'mt', 'ma', 'ma', 'mn', 'me', 's', 's', 's',
+        k = rng.choice(['as', 'as', 'am', 'am', 'ac', 'ft', 'ff', 'fc', 'fh', 'fh', 'fy', 'mt', 'mt', 'ma', 'ma', 'mn', 'me', 's', 's', 's',
                         'p', 'gs', 'gr', 'gf', 'gc', 'q', 'q', 'd', 'l', 'z'])
         if self.accepting and k in ('ff', 'fc', 'fh', 'fy', 'd', 'l'):
             k = rng.choice(['ft', 'as', 'mt', 'q', 's'])
@@ -148,6 +173,7 @@ class Gen:
         o = self.fresh()
         r = lambda: int(self.accepting or rng.random() < 0.75)
         if k == 'as': t = 'as:%d:%s:%s' % (o, self.key(), hx(rng.choice(VALS)))
+        elif k == 'am': t = self.many(o)
         elif k == 'ac': t = 'ac:%d:%s' % (o, self.key())
         elif k in ('ft', 'ff', 'mn', 'me', 's', 'p'): t = '%s:%d' % (k, o)
         elif k == 'fc': t = 'fc:%d:%s' % (o, hx(rng.choice(SUBS)))
@@ -175,7 +201,11 @@ class Gen:
             out.append(('L', 'mt:%d:%s' % (self.fresh(), hx(rng.choice(TAGS)))) if rng.random() < 0.6
                        else ('L', 'as:%d:%s:%s' % (self.fresh(), self.key(), hx(rng.choice(VALS)))))
             self.feat.add('set_before_scoped_child')
+        if rng.random() < 0.15:
+            self.override_motif(out)
         ch = self.gen_list(depth + 1, max_depth, max_width, scoped, kind in ('(', '(!'))
+        if rng.random() < 0.15:
+            self.override_motif(ch)
         if rng.random() < 0.6:                  # probe = first thing the child runs
             ch.insert(0, ('L', 'p:%d' % self.fresh()))
         if scoped and rng.random() < 0.5:       # something set inside that a later sibling could read
@@ -204,6 +234,8 @@ class Gen:
     def gen_list(self, depth, max_depth, max_width, in_scoped, simple_parent):
         rng = self.rng
         out = []
+        if depth == 0 and rng.random() < 0.2:
+            self.override_motif(out)
         for _ in range(rng.randint(0, max_width)):
             if rng.random() < 0.27 and depth < max_depth:
                 self.gen_child(out, depth, max_depth, max_width, simple_parent)
@@ -357,6 +389,9 @@ def readable(tokens):
         p = t.split(':')
         for i in range(2, 2 + nhex.get(p[0], 0)):
             p[i] = repr(unhx(p[i]))
+        if p[0] == 'am':
+            p[2] = '{' + ', '.join('%r: %r' % tuple(unhx(x) for x in kv.split('.')) for kv in p[2].split(',') if kv) + '}'
+
         out.append(':'.join(p))
     return ' '.join(out)
 
